@@ -335,12 +335,14 @@ pub fn run() {
     let quick = ctx.quick();
     let mut fam = BTreeMap::new();
     let mut all = Out::default();
-    let sentences: Vec<String> = corpus::sentence_lines(!quick).iter().map(|l| corpus::wrap(l)).collect();
+    // both tiers run the generated families in full (seconds); the tiers differ in the mutation
+    // vocabulary, the jump family and the size of the process-level cross-section
+    let sentences: Vec<String> = corpus::sentence_lines(true).iter().map(|l| corpus::wrap(l)).collect();
     run_family("sentences", &sentences, &mut fam, &mut all);
     run_family("line-shapes", &corpus::shape_programs(), &mut fam, &mut all);
     run_family("label-rules", &corpus::label_programs(), &mut fam, &mut all);
     run_family("character-classes", &corpus::char_class_programs(), &mut fam, &mut all);
-    let orgs = org_programs(!quick);
+    let orgs = org_programs(true);
     run_family("org-after-every-position", &orgs, &mut fam, &mut all);
     let sizes = size_programs();
     run_family("images-of-every-size", &sizes, &mut fam, &mut all);
@@ -349,7 +351,7 @@ pub fn run() {
     let jumps = crate::c02::jump_programs(!quick);
     run_family("relative-jumps-every-distance", &jumps, &mut fam, &mut all);
     let shapes = crate::c02::shapes(true);
-    let lay = crate::c02::layout_programs(if quick { 1 } else { 2 }, &shapes);
+    let lay = crate::c02::layout_programs(2, &shapes);
     run_family("shapes-after-directive-prefixes", &lay, &mut fam, &mut all);
     run_family("limit-directives", &crate::c02::limit_programs(), &mut fam, &mut all);
     let repo: Vec<String> = corpus::repo_programs().into_iter().map(|p| p.1).collect();
